@@ -236,7 +236,7 @@ class Big(Suite):
     name = "big"
     imports = ["Rank", "Markov", "Judge.JC20"]
     judge = "judge_big"
-    ctype = "Z * Z * nat * list (list (Z * Z + list Z))"
+    ctype = "Z * Z * nat * list (list bitem)"
 
     def gen(self, tier, rng):
         cases = [{"n": 33000, "m": 1, "steps": 0, "mode": "complete", "seed": 2}, {"n": 33000, "m": 2, "steps": 20, "mode": "complete", "seed": 1},
@@ -265,10 +265,16 @@ class Big(Suite):
                 while j + 1 < len(r) and len(r[j]) == 1 and len(r[j + 1]) == 1 and r[j + 1][0] == r[j][0] + 1:
                     j += 1
                 if j - i + 1 >= 8:
-                    items.append(f"(inl ({z(r[i][0])}, {z(j - i + 1)}))")
+                    items.append(f"(Run {z(r[i][0])} {z(j - i + 1)})")
                     i = j + 1
+                elif len(r[i]) == 1:
+                    k = i
+                    while k < len(r) and len(r[k]) == 1 and k - i < 50000:
+                        k += 1
+                    items.append("(Singles " + clist([z(r[q][0]) for q in range(i, k)]) + ")")
+                    i = k
                 else:
-                    items.append("(inr " + clist([z(e) for e in r[i]]) + ")")
+                    items.append("(Bucket " + clist([z(e) for e in r[i]]) + ")")
                     i += 1
             return clist(items)
         rks = clist([compress(r) for r in out["rankings"]])
